@@ -471,3 +471,37 @@ func spillOnPath(v ssa.Value, blocks []*ssa.BasicBlock) ssa.Value {
 	}
 	return v
 }
+
+// Reaches reports whether control can flow from instruction a to instruction b (a ≠ b) inside one function.
+func Reaches(a, b ssa.Instruction) bool {
+	ba, bb := a.Block(), b.Block()
+	if ba == bb {
+		ia, ib := -1, -1
+		for i, in := range ba.Instrs {
+			if in == a {
+				ia = i
+			}
+			if in == b {
+				ib = i
+			}
+		}
+		if ia < ib {
+			return true
+		}
+	}
+	seen := map[*ssa.BasicBlock]bool{}
+	work := append([]*ssa.BasicBlock(nil), ba.Succs...)
+	for len(work) > 0 {
+		x := work[0]
+		work = work[1:]
+		if seen[x] {
+			continue
+		}
+		seen[x] = true
+		if x == bb {
+			return true
+		}
+		work = append(work, x.Succs...)
+	}
+	return false
+}
